@@ -611,12 +611,13 @@ class Supervisor(PoolThread):
 
 class TaskHandler(PoolThread):
 
-    def __init__(self, taskqueue, put, outqueue, pool, cache):
+    def __init__(self, taskqueue, put, outqueue, pool, cache, putlock=None):
         self.taskqueue = taskqueue
         self.put = put
         self.outqueue = outqueue
         self.pool = pool
         self.cache = cache
+        self.putlock = putlock
         super().__init__()
 
     def body(self):
@@ -641,9 +642,22 @@ class TaskHandler(PoolThread):
                         # task is (TASK, (job, i, fun, args, kwargs))
                         job, ind = task[1][:2]
                         try:
-                            cache[job]._set(ind, (False, ExceptionInfo()))
+                            item = cache[job]
                         except KeyError:
                             pass
+                        else:
+                            if ind is None:
+                                # an apply_async task that was never sent:
+                                # no worker will acknowledge or answer it,
+                                # so its slot is given back and its cache
+                                # entry removed here.
+                                if not item.ready() and \
+                                        self.putlock is not None:
+                                    self.putlock.release()
+                                item._set(ind, (False, ExceptionInfo()))
+                                cache.pop(job, None)
+                            else:
+                                item._set(ind, (False, ExceptionInfo()))
                 else:
                     if set_length:
                         debug('doing set_length()')
@@ -1102,7 +1116,8 @@ class Pool:
                                               self._quick_put,
                                               self._outqueue,
                                               self._pool,
-                                              self._cache)
+                                              self._cache,
+                                              self._putlock)
         if threads:
             self._task_handler.start()
 
@@ -1582,7 +1597,15 @@ class Pool:
                 self._taskqueue.put(([(TASK, (result._job, None,
                                     func, args, kwds))], None))
             else:
-                self._quick_put((TASK, (result._job, None, func, args, kwds)))
+                try:
+                    self._quick_put((TASK, (result._job, None,
+                                            func, args, kwds)))
+                except Exception:
+                    # never sent: give the slot back, forget the handle
+                    self._cache.pop(result._job, None)
+                    if waitforslot and self._putlock is not None:
+                        self._putlock.release()
+                    raise
             return result
 
     def send_ack(self, response, job, i, fd):
